@@ -69,7 +69,8 @@ func resubmitTx(h *Hist, id string) *TxSpec {
 
 func runC09(rc *sim.RunCtx) {
 	h, err := NewHist(rc, HistOpts{Profiles: []string{"core", "core", "presence"}, MinTx: 2, MaxTx: 8, Capture: true,
-		Oracles: map[string]bool{"C01": true, "C02": true}})
+		DevKinds: []string{"direct", "direct", "direct", "gnmi-proto", "gnmi-json", "gnmi-json_ietf"},
+		Oracles:  map[string]bool{"C01": true, "C02": true}})
 	if err != nil {
 		rc.HarnessErr("world: %v", err)
 		return
